@@ -1,6 +1,8 @@
 //! Generates the corpora at build time, against the macros and the code generator in /repo.
 use std::path::PathBuf;
 
+#[path = "gen/introspect.rs"]
+mod introspect;
 #[path = "gen/proxy.rs"]
 mod proxy;
 
@@ -10,6 +12,8 @@ fn main() {
         std::fs::create_dir_all(out.join(dir)).unwrap();
         let (code, _n) = proxy::generate(thorough);
         std::fs::write(out.join(dir).join("proxy_corpus.rs"), code).unwrap();
+        let (code, _n) = introspect::generate(thorough);
+        std::fs::write(out.join(dir).join("introspect_corpus.rs"), code).unwrap();
     }
     println!("cargo:rerun-if-changed=gen");
     println!("cargo:rerun-if-changed=build.rs");
